@@ -195,6 +195,40 @@ def function_check(rep, libname, name, ins, outs, cc, concrete_bytes=None):
     return res, (sym if concrete_bytes is None else None)
 
 
+def _cell_path(rep, libname, lib, name, ins, outs, cc, fam):
+    try:
+        r = function_check(rep, libname, name, ins, outs, cc)
+    except Exception as e:
+        rep.violation(f'cell={libname}/{fam}', f'{libname}.{name}: simulating the implementation raised {type(e).__name__}: {e}', {'mode': 'func', 'lib': libname, 'cell': name, 'bytes': {}})
+        return
+    if isinstance(r, str):
+        rep.counts['cells_' + r] += 1
+        if r == 'no-datasheet-function': rep.note(f'{libname}/{fam}: function outside the claim (pin table checked)')
+        return
+    if r[0] == 'error':
+        rep.violation(f'cell={libname}/{fam}', f'{libname}.{name}: {r[1]}', {'mode': 'func', 'lib': libname, 'cell': name, 'bytes': {}})
+        return
+    obl, sym = r
+    rep.counts['paths'] += 1
+    rep.counts['ops'] += len(cc.nodes)
+    rep.counts['obligations'] += len(obl)
+    q = lanes.Q(rep)
+    res = q.check(z3.Or([g != t for _, g, t in obl]))
+    if res == z3.unsat:
+        rep.counts['discharged'] += len(obl)
+        rep.sample({'lib': libname, 'cell': name, 'family': fam, 'inputs': ins, 'outputs': outs, 'verdict': 'unsat'}, limit=8)
+    elif res == z3.sat:
+        mdl = q.model()
+        idx = {n.name: i for i, n in enumerate(cc.s_nodes)}
+        by = {p: mdl.eval(sym[(idx[p], 0, 0)], model_completion=True).as_long() for p in ins}
+        data = {'mode': 'func', 'lib': libname, 'cell': name, 'bytes': by}
+        ok, what = replay(data)
+        if ok: rep.violation(f'cell={libname}/{fam}', what, data)
+        else: rep.error(f'{libname}.{name}: counterexample does not replay')
+    else:
+        rep.error(f'{libname}.{name}: solver unknown')
+
+
 def check_lib(libname):
     rep = common.Report()
     lib = getattr(techlib, libname)
@@ -213,37 +247,7 @@ def check_lib(libname):
         fam = family(name)
         if (id(cc), fam) in seen: continue
         seen.add((id(cc), fam))
-        try:
-            r = function_check(rep, libname, name, ins, outs, cc)
-        except Exception as e:
-            rep.violation(f'cell={libname}/{fam}', f'{libname}.{name}: simulating the implementation raised {type(e).__name__}: {e}', {'mode': 'func', 'lib': libname, 'cell': name, 'bytes': {}})
-            continue
-        if isinstance(r, str):
-            rep.counts['cells_' + r] += 1
-            if r == 'no-datasheet-function': rep.note(f'{libname}/{fam}: function outside the claim (pin table checked)')
-            continue
-        if r[0] == 'error':
-            rep.violation(f'cell={libname}/{fam}', f'{libname}.{name}: {r[1]}', {'mode': 'func', 'lib': libname, 'cell': name, 'bytes': {}})
-            continue
-        obl, sym = r
-        rep.counts['paths'] += 1
-        rep.counts['ops'] += len(cc.nodes)
-        rep.counts['obligations'] += len(obl)
-        q = lanes.Q(rep)
-        res = q.check(z3.Or([g != t for _, g, t in obl]))
-        if res == z3.unsat:
-            rep.counts['discharged'] += len(obl)
-            rep.sample({'lib': libname, 'cell': name, 'family': fam, 'inputs': ins, 'outputs': outs, 'verdict': 'unsat'}, limit=8)
-        elif res == z3.sat:
-            mdl = q.model()
-            idx = {n.name: i for i, n in enumerate(cc.s_nodes)}
-            by = {p: mdl.eval(sym[(idx[p], 0, 0)], model_completion=True).as_long() for p in ins}
-            data = {'mode': 'func', 'lib': libname, 'cell': name, 'bytes': by}
-            ok, what = replay(data)
-            if ok: rep.violation(f'cell={libname}/{fam}', what, data)
-            else: rep.error(f'{libname}.{name}: counterexample does not replay')
-        else:
-            rep.error(f'{libname}.{name}: solver unknown')
+        lanes.explore(lambda eng, name=name, ins=ins, outs=outs, cc=cc, fam=fam: _cell_path(rep, libname, lib, name, ins, outs, cc, fam), rep)
     return rep
 
 
